@@ -239,6 +239,14 @@ def r5(ctx):
         chain = fn.blocks[chain].succs[0]
         others.remove(chain)
     region = fn.reach([lab], cut_blocks=others)
+    # every value the counter is given in the case of a lost arbitration is a positive one (a later write overrides an
+    # earlier one: the configured lock count is 0 for "automatic")
+    for nid, rhs in allw:
+        if fn.block_of(nid) in region and fn.block_of(nid) not in regs[inv['bs_ready']] and \
+                ('(%s == #%d)' % (arb, as_lost), True) in set((a[0], a[1]) for a in fn.atoms(nid)):
+            n += 1
+            ctx.ob('C03.R5', fn, nid, nid in pos_w, 'm_remainLockCount := %s (lost arbitration reported by the device)' % fn.key(rhs),
+                   'a constant >= 1 or m_lockCount: %s' % (nid in pos_w))
     m = 0
     for c in calls:
         if fn.block_of(c) not in region or fn.block_of(c) in regs[inv['bs_ready']]:
@@ -747,7 +755,28 @@ def r22(ctx):
                vals[0][2], vals[-1][2], not bad, '' if not bad else ' - ' + '; '.join(bad)))
 
 
+def r24(ctx):
+    ctx.rule('C03.R24', 'the run loop learns that input is still buffered: DirectProtocolHandler::setState hands back the result it was '
+             'given - it does not assign to its result parameter and every return statement returns that parameter. '
+             'handleReceive returns setState(...) and run() repeats the receive step without a send step while the answer is '
+             'RESULT_CONTINUE; turned into RESULT_OK inside setState, ebusd sends (an ACK) before it has looked at the SYN that '
+             'is already buffered', minimum=2)
+    fb = ctx.fb
+    fn = fb.fn('ebusd::DirectProtocolHandler::setState')
+    ctx.touch(fn)
+    res = fn.P(1)
+    writes = [nid for nid, d, rhs, op, lhs in fn.assignments() if d and d.split(':')[-1] == res and op != 'init']
+    ctx.ob('C03.R24', fn, writes[0] if writes else fn.body, not writes, 'result parameter of setState', 'never assigned: %s' % (not writes))
+    for r in fn.all('ReturnStmt'):
+        v = fn.nodes[r].get('val')
+        if v is None:
+            continue
+        ok = fn.key(v) == res
+        ctx.ob('C03.R24', fn, r, ok, 'return of setState', 'hands back the result parameter: %s (%s)' % (ok, fn.key(v)))
+
+
 def run(ctx):
+    r24(ctx)
     import rules.C04 as _c04s
     ctx.borrow(_c04s.r15, {'C04.R15': 'C03.R23'}, 'ebusd acknowledges only responses of its own exchange: a request that stays current over a SYN makes it write ACK and SYN into the next foreign telegram')
     r22(ctx)
